@@ -121,7 +121,12 @@ class FuncInfo:
         return 'Func(%s)' % self.qualname
 
     def loc(self, node=None):
-        return '%s:%d' % (self.module.rel, (node or self.node).lineno)
+        n = node if node is not None else self.node
+        line = getattr(n, 'lineno', None)
+        if line is None:
+            # nodes without a position of their own (comprehension clauses, arguments): use what they contain / the function
+            line = next((getattr(x, 'lineno') for x in ast.walk(n) if hasattr(x, 'lineno')), self.node.lineno)
+        return '%s:%d' % (self.module.rel, line)
 
 
 def walk_function(fnode):
